@@ -477,7 +477,14 @@ struct WL {
     void body(int t)
     {
         int n = gsim::prog_len(t);
-        for (int i = 0; i < n; i++) run_op(gsim::prog_op(t, i), t, i);
+        for (int i = 0; i < n; i++) {
+            gsim::Op op = gsim::prog_op(t, i);
+            bool unwind = (op.c & 8) != 0 && op.code != OP_EMPLACE_THROW &&
+                op.code != OP_HOLD_TRAVERSE && op.code != OP_HOLD_BLIP;
+            op.c &= 7;
+            if (unwind) wl::run_in_unwind([&] { run_op(op, t, i); });
+            else run_op(op, t, i);
+        }
     }
     struct Body {
         WL* w;
@@ -661,6 +668,7 @@ struct WL {
                         op.c = gsim::gen_int(8) == 0 ? 1 : (gsim::gen_int(6) == 0 ? 2 : 0);
                     }
                 }
+                if (gsim::gen_int(12) == 0) op.c |= 8;  // run the op during stack unwinding
                 gsim::prog_add(t, op);
             }
         }
